@@ -317,6 +317,122 @@ func c04matrix(r *Run, cell c04cell) {
 		r.CountN("sessions_refused", len(conns)-nEst)
 	}
 	r.NonTriv = true
+
+	// ---- the session is lost and the same clients connect again: what was required or negotiated for the
+	// first session holds for every later one (the upstream objects of a client outlive its sessions)
+	if nEst == 0 || strings.HasPrefix(cell.Carrier, "stdio") || !c.Chance(1, 2, "second-session") {
+		return
+	}
+	for _, lc := range conns {
+		lc.App.Do(Op{Kind: "close"})
+	}
+	r.RunFor(3 * time.Second)
+	cut := 0
+	for _, cn := range r.Net.Conns() {
+		if cn.Tag == "dial" && strings.HasSuffix(cn.Key, fmt.Sprintf(":%d", CarrierPort(cell.Carrier))) || cn.Tag == "dial" && strings.Contains(cn.Key, fmt.Sprintf("sa-%d.sock", CarrierPort(cell.Carrier))) {
+			r.Net.Reset(cn)
+			cut++
+		}
+	}
+	if cut > 0 {
+		r.Count("fault_carrier_reset")
+		r.RunFor(time.Duration(1+c.Pick(10, "wait-s")) * time.Second)
+	} else {
+		// datagram carriers: the server goes away and comes back; only the keep-alive can notice
+		if err := w.RestartServer(); err != nil {
+			r.Fail("harness", "server restart: %v", err)
+			return
+		}
+		r.Count("fault_server_restart")
+		r.RunFor(95 * time.Second)
+	}
+	srvTLS0 := 0
+	for _, l := range r.hook.lines {
+		if strings.Contains(l, "[Server] Connection encrypted using TLS") {
+			srvTLS0++
+		}
+	}
+	conns2 := make([]*LConn, len(conns))
+	for i := range conns2 {
+		conns2[i] = &LConn{I: len(conns) + i, TIdx: 0, Lsn: conns[i].Lsn, Mode: "active"}
+		conns2[i].PlanA = Partition(c, 1024, "app-part")
+		conns2[i].PlanT = Partition(c, 1024, "tgt-part")
+	}
+	cs2 := NewConnSet(r, w, "app", conns2)
+	extra2 := func() []Ev { return append(cs2.OpenEv(nil), cs2.PeerEvents()...) }
+	goal2 := func() bool {
+		cs2.Assign()
+		if !cs2.AllOpened() {
+			return false
+		}
+		for _, lc := range conns2 {
+			if cs2.Complete(lc, false) {
+				continue
+			}
+			_, _, eof, rerr, _, _ := lc.App.Snapshot()
+			if !(eof || rerr != nil) {
+				return false
+			}
+		}
+		return true
+	}
+	out = r.Drive(pol, goal2, extra2, 90*time.Second, 10*time.Minute)
+	if out == Aborted {
+		return
+	}
+	cs2.Assign()
+	wire = wireBytes(r, w)
+	srvTLS2 := -srvTLS0
+	for _, l := range r.hook.lines {
+		if strings.Contains(l, "[Server] Connection encrypted using TLS") {
+			srvTLS2++
+		}
+	}
+	sig += " second-session"
+	nEst2 := 0
+	for i, lc := range conns2 {
+		established := cs2.Complete(lc, false)
+		inClear := false
+		wins := windows(lc.App.TxKey, lc.WantA)
+		if lc.Tp != nil && lc.Tp.TxKey != 0 {
+			wins = append(wins, windows(lc.Tp.TxKey, lc.WantT)...)
+		}
+		for _, win := range wins {
+			if bytes.Contains(wire, win) {
+				inClear = true
+			}
+		}
+		found, cliSecure, cliTech := clientSecurityOf(clients[i])
+		if established {
+			nEst2++
+		}
+		r.Info[fmt.Sprintf("client%d_second", i)] = fmt.Sprintf("established=%v in_clear=%v found=%v secure=%v tech=%s", established, inClear, found, cliSecure, cliTech)
+		who := fmt.Sprintf("cell %s, client %d of %d, second session after the first was lost", cell, i, len(conns))
+		switch {
+		case established && mustBeProtected && inClear:
+			r.FailSig("plaintext-on-protected-session", sig, "%s: the session was established and application payload appears in clear on the carrier (client reports secure=%v tech=%s)", who, cliSecure, cliTech)
+			return
+		case established && found && cliSecure && inClear:
+			r.FailSig("plaintext-on-protected-session", sig, "%s: the client reports the session secure (%s) but application payload appears in clear on the carrier", who, cliTech)
+			return
+		case established && cell.Secure && found && !cliSecure:
+			r.FailSig("insecure-session-accepted", sig, "%s: the client requires security but carries application data over a session it reports as not secure", who)
+			return
+		case established && cell.Cert && !carrierEnc && found && cliTech != "tls":
+			r.FailSig("starttls-not-upgraded", sig, "%s: the server offers StartTLS on an unencrypted carrier and a session was established, but client tech=%s", who, cliTech)
+			return
+		case !established && lc.Tp != nil && cell.Secure && !cell.Cert && !carrierEnc:
+			r.FailSig("insecure-session-accepted", sig, "%s: no session should exist, yet the target accepted a connection", who)
+			return
+		}
+	}
+	if cell.Cert && !carrierEnc && nEst2 > 0 && srvTLS2 < nEst2 {
+		r.FailSig("starttls-not-upgraded", sig, "cell %s: %d second session(s) established on an endpoint offering StartTLS, the server upgraded only %d", cell, nEst2, srvTLS2)
+		return
+	}
+	if nEst2 > 0 {
+		r.CountN("second_sessions_established", nEst2)
+	}
 }
 
 // ---- part (b): real client against a scripted server that deviates at one step
